@@ -327,6 +327,7 @@ def check(rep):
                 '(every single cut for short streams, random multi-cut, 1-byte dribble; thorough: every 1- and 2-cut of '
                 'streams <= 200 bytes) + truncated streams; a case is (stream bytes, chunk boundaries); distinct = '
                 'distinct (stream, boundaries); non-trivial = at least one cut falls strictly inside a frame')
+    rep.rule += '; plus: close()/open() cycles of one Connection with the real reader threads under the virtual runtime (40 / 1500 runs), bulk streams larger than the maximum frame size in completely filled reads and in one read, and the two real pollers on a real local socket pair'
     rep.assumptions = [
         'pamqp.frame.unmarshal envelope behaviour is modelled in Lean (unmarshalEnv) and compared here on generated bytes',
         'method/header payloads are generated by pamqp itself (valid); payload-level decode errors are outside the model',
